@@ -686,7 +686,11 @@ impl TypeEntry {
             }
 
             TypeEntryDetails::Boolean => true,
-            TypeEntryDetails::Integer(_) => true,
+            // The NonZero types have no default value.
+            TypeEntryDetails::Integer(name) => {
+                impl_name != TypeSpaceImpl::Default
+                    || !name.starts_with(crate::convert::STD_NUM_NONZERO_PREFIX)
+            }
             TypeEntryDetails::Float(_) => true,
             TypeEntryDetails::String => true,
 
